@@ -161,7 +161,7 @@ def obligations(tier, seed):
     if tier == "quick":
         parts = [{"schema": s, "doc": i} for (s, i) in QUICK]
     else:
-        parts = common.doc_partitions(["basic", "list", "strict", "iso", "table", "docmarks"], tier)
+        parts = [{"schema": s, "doc": i} for (s, i) in [("list", 0), ("list", 1), ("list", 3), ("strict", 0), ("iso", 0), ("basic", 1)]]
     for p in parts:
         tag = "%s#%d" % (p["schema"], p["doc"])
         size = common.templates.doc(p["schema"], p["doc"]).content.size
@@ -174,7 +174,7 @@ def obligations(tier, seed):
                 continue
             if reach_replace(C_, a1, q.get("ss", range(len(C_.slices)))):
                 obs.append({"name": "replace/%s/a1=%d" % (tag, a1), "fn": "ob_replace", "P": dict(q, a1=a1), "timeout": T})
-            if C_.marks and (tier != "quick" or (size <= 7 and a1 in (0, 1, 2, 4))):
+            if C_.marks and ((tier != "quick" and size <= 10) or (size <= 7 and a1 in (0, 1, 2, 4))):
                 for mk in (q.get("ms", range(len(C_.marks))) if tier != "quick" else [0, 1]):
                     for rem in (False, True):
                         obs.append({"name": "mark/%s/a1=%d/m%d/%s" % (tag, a1, mk, "remove" if rem else "add"), "fn": "ob_mark",
